@@ -86,7 +86,9 @@ def gen_cases(ctx):
             frames.append({"to": dest_of(dcls, me, rng), "dcls": dcls, "ocls": ocls, "type": typ, "len": ln,
                            "reserved": rng.choice([0, 1, 2, 7, 255, rng.randrange(256)]),
                            "id": rng.getrandbits(16), "pipe": rng.randrange(6)})
-        yield {"part": "frames", "role": role, "level": lvl, "frames": frames,
+        # some nodes had their multicast level re-assigned (to another level than their own)
+        mlv = (lvl + 1 + i % 4) % 5 if role in ("router", "net", "net_relay", "meshnm_connected") and (i // 7) % 3 == 0 else None
+        yield {"part": "frames", "role": role, "level": lvl, "frames": frames, "mlevel": mlv,
                "seed": rng.getrandbits(30), "phantom": rng.random() < 0.85,
                "burst": rng.choice([1, 1, 2, 3])}
     yield from gen_followed_by_invalid(ctx)
@@ -104,6 +106,9 @@ def gen_cases(ctx):
             for k in range(0, len(frames), 96):
                 yield {"part": "frames", "role": role, "level": 0 if role == "master3" else 2,
                        "frames": frames[k:k + 96], "seed": k, "phantom": True, "burst": 1}
+                if role != "master3" and (k // 96) % 4 == 1:
+                    yield {"part": "frames", "role": role, "level": 3, "mlevel": (k // 96) % 3,
+                           "frames": frames[k:k + 96], "seed": k, "phantom": True, "burst": 1}
 
 
 def gen_followed_by_invalid(ctx):
@@ -246,6 +251,9 @@ def run_case(ctx, case):
         if case["phantom"]:
             rig.air.promisc = Phantom()
         radio, o = make_node(rig, case["role"], case["level"], case["seed"])
+        if o is not None and case.get("mlevel") is not None:
+            o.multicast_level = case["mlevel"]
+            ctx.count("nodes_with_multicast_level_reassigned")
         if o is None:
             return
         _frames(ctx, case, rig, radio, o)
